@@ -599,14 +599,17 @@ fn case_end() {
 /// A case that does not return within the limit ("fails to return") is reported and the worker
 /// exits; the orchestrator restarts it after that case.
 fn start_watchdog(t0: std::time::Instant) {
-    let limit_ms: u64 = std::env::var("OBSERVE_CASE_TIMEOUT_MS").ok().and_then(|v| v.parse().ok()).unwrap_or(30_000);
+    let limit_ms: u64 = std::env::var("OBSERVE_CASE_TIMEOUT_MS").ok().and_then(|v| v.parse().ok()).unwrap_or(15_000);
     std::thread::spawn(move || loop {
         std::thread::sleep(std::time::Duration::from_millis(250));
         let st = CASE_START.load(std::sync::atomic::Ordering::SeqCst);
         if st != 0 && (t0.elapsed().as_millis() as u64 + 1).saturating_sub(st) > limit_ms {
+            // the main thread holds the stdout lock for its whole life: write to the descriptor
             let msg = b"load timeout\nEND\n";
-            let _ = std::io::stdout().write_all(msg);
-            let _ = std::io::stdout().flush();
+            use std::os::unix::io::FromRawFd;
+            let mut f = unsafe { std::fs::File::from_raw_fd(1) };
+            let _ = f.write_all(msg);
+            let _ = f.flush();
             std::process::exit(3);
         }
     });
@@ -685,6 +688,7 @@ fn main() {
             }
             "UTIL" => util_obs::handle(&parts, &mut out),
             "THREADS" => sched::handle_threads(&parts, &mut out),
+            "HISTORY" => sched::handle_history(&parts, &mut out),
             _ => {
                 writeln!(out, "bad-op").unwrap();
                 out.flush().unwrap();
